@@ -260,8 +260,11 @@ pub struct NetSim<P: Protocol> {
     pub lost_unknown_dst: u64,
     /// datagrams addressed to something that is not a simulated node (scripted peers read them here)
     pub stray: Vec<Datagram>,
-    /// set when one settle() needed more than 20000 deliveries (datagram storm)
+    /// set when one settle() needed more than `storm_limit` deliveries (datagram storm)
     pub storm: bool,
+    /// deliveries per settle() after which the network drops everything in flight (default 20000)
+    pub storm_limit: usize,
+    pub storms: u64,
 }
 
 pub fn sim_addr(n: usize) -> SocketAddr {
@@ -294,6 +297,8 @@ impl<P: Protocol> NetSim<P> {
             lost_unknown_dst: 0,
             stray: vec![],
             storm: false,
+            storm_limit: 20_000,
+            storms: 0,
         }
     }
 
@@ -316,6 +321,20 @@ impl<P: Protocol> NetSim<P> {
 
     pub fn addr(&self, i: usize) -> SocketAddr {
         self.nodes[i].addr
+    }
+
+    /// the process behind node i is killed and started again with `config` on the same address: fresh node id,
+    /// fresh state, no close message; datagrams it had in flight are lost
+    pub fn restart_node(&mut self, i: usize, config: &Config, nat: bool) {
+        let addr = self.nodes[i].addr;
+        let mut config = config.clone();
+        config.listen = addr.to_string();
+        MockSocket::set_nat(nat);
+        let node = Node::<P>::new(&config, MockSocket::new(addr), MockDevice::new(), None, None);
+        MockSocket::set_nat(false);
+        self.nodes[i] = SimNode { addr, node, buf: new_buf(), dead: false };
+        self.inflight.retain(|d| d.src != addr);
+        self.delayed.retain(|d| d.src != addr);
     }
 
     /// moves everything node i has sent into the network
@@ -386,9 +405,10 @@ impl<P: Protocol> NetSim<P> {
         while let Some(d) = self.inflight.pop_front() {
             self.deliver(d);
             guard += 1;
-            if guard > 20_000 {
+            if guard > self.storm_limit {
                 // datagrams keep causing datagrams: a loop in the (rewritten) network
                 self.storm = true;
+                self.storms += 1;
                 self.inflight.clear();
                 break;
             }
